@@ -172,6 +172,11 @@ func C20_NewView() {
 	}
 	confirmations := interfaces.ExtractConfirmationsFromViewChangeMessages(vcms)
 	ppb := leader.f.CreatePreprepareMessageContentBuilder(h, v, block, hash)
+	noPP := env.ParamOr("nopp", 0) == 1
+	if noPP {
+		// the factory also builds a NEW_VIEW that carries a block but no embedded PREPREPARE
+		ppb = nil
+	}
 	nvm := leader.f.CreateNewViewMessage(h, v, ppb, confirmations, block)
 	back := interfaces.ToConsensusMessage(nvm.ToConsensusRawMessage())
 	m, ok := back.(*interfaces.NewViewMessage)
@@ -184,8 +189,12 @@ func C20_NewView() {
 	hdr := m.Content().SignedHeader()
 	env.Assert("C20.NV.sig_still_verifies", leader.km.VerifyConsensusMessage(h, hdr.Raw(), m.Content().Sender()) == nil)
 	pp := m.Content().Message()
-	c20RefEq("C20.NV.pp_ref", pp.SignedHeader(), protocol.LEAN_HELIX_PREPREPARE, inst, h, v, hash)
-	env.Assert("C20.NV.pp_sig_verifies", leader.km.VerifyConsensusMessage(h, pp.SignedHeader().Raw(), pp.Sender()) == nil)
+	if !noPP {
+		c20RefEq("C20.NV.pp_ref", pp.SignedHeader(), protocol.LEAN_HELIX_PREPREPARE, inst, h, v, hash)
+		env.Assert("C20.NV.pp_sig_verifies", leader.km.VerifyConsensusMessage(h, pp.SignedHeader().Raw(), pp.Sender()) == nil)
+	} else {
+		env.Assert("C20.NV.pp_ref", len(pp.Raw()) == 0)
+	}
 	it := hdr.ViewChangeConfirmationsIterator()
 	i := 0
 	for it.HasNext() {
